@@ -10,4 +10,6 @@ TARGETS = {
     "c19_bookbuild": dict(flavours=["seq", "fast"], src=["harness/c19_bookbuild.cpp"], net="stub"),
     "c12_tbgen": dict(flavours=["seq", "fast"], src=["harness/c12_tbgen.cpp"], net="stub"),
     "c13_tbsearch": dict(flavours=["seq", "fast"], src=["harness/c13_tbsearch.cpp"], net=1),
+    "c04_mates": dict(flavours=["seq", "fast"], src=["harness/c04_mates.cpp"], net=1),
+    "c04_mates_net0": dict(flavours=["fast"], src=["harness/c04_mates.cpp"], net=0),
 }
